@@ -218,7 +218,7 @@ fn run_case(k: usize, sched: &[usize]) -> Outcome {
 /// and a description of the first failure.
 fn run_stress(k: usize, rounds: usize) -> (usize, String) {
     let rt = tokio::runtime::Builder::new_multi_thread()
-        .worker_threads(4)
+        .worker_threads(8)
         .enable_all()
         .build()
         .unwrap();
@@ -230,10 +230,16 @@ fn run_stress(k: usize, rounds: usize) -> (usize, String) {
             let group =
                 KeyspaceGroup::new(Arc::new(MemStore::default()), clock.clone()).await;
             let mut handles = Vec::new();
+            // odd rounds release all first users together (the window between a creator's
+            // last check and its insert is about a microsecond wide); even rounds let them
+            // start as they are spawned
+            let gate = Arc::new(tokio::sync::Barrier::new(if round % 2 == 1 { k } else { 1 }));
             for i in 0..k {
                 let g = group.clone();
                 let c = clock.clone();
+                let gate = gate.clone();
                 handles.push(tokio::spawn(async move {
+                    gate.wait().await;
                     let mb = g.get_or_create_keyspace(KEYSPACE).await;
                     let ts = c.get_time().await;
                     let doc = Document::new(i as u64, ts, vec![i as u8]);
@@ -285,6 +291,128 @@ fn run_stress(k: usize, rounds: usize) -> (usize, String) {
         }
     }
     (bad, first)
+}
+
+/// Oracle-only leg for "for the life of the node": the group's background purge task runs
+/// (virtual time is advanced past its period) between two uses of a keyspace, with the
+/// store's `remove_tombstones` healthy (`mode` 0), failing for that tick (1) or failing
+/// after a partial success (2).  `pre` documents are written (and the odd ones deleted, so
+/// that there are tombstones) through a mailbox obtained before the tick, one more through
+/// the same mailbox after it, one through a fresh lookup.  Every acknowledged write has to
+/// be in the set a later lookup returns, the old mailbox has to reach that same set.
+fn run_purge(mode: usize, pre: usize, ticks: usize) -> Result<u64, String> {
+    use hx_ec::{Faulty, Plan};
+    let rt = tokio::runtime::Builder::new_current_thread()
+        .enable_all()
+        .start_paused(true)
+        .build()
+        .unwrap();
+    let out = rt.block_on(async move {
+        let clock = Clock::new(0);
+        let store = Arc::new(Faulty::default());
+        let group = KeyspaceGroup::new(store.clone(), clock.clone()).await;
+        settle(None).await;
+        let old = group.get_or_create_keyspace(KEYSPACE).await;
+        let other = group.get_or_create_keyspace("other").await;
+        let mut want: Vec<u64> = Vec::new();
+        for i in 0..pre as u64 {
+            let ts = clock.get_time().await;
+            let doc = Document::new(i, ts, vec![i as u8]);
+            old.send(hx_ec::msg_set::<Faulty>(CONSISTENCY_SOURCE_ID, doc))
+                .await
+                .map_err(|e| format!("set {i}: {e:?}"))?;
+            if i % 2 == 1 {
+                let ts = clock.get_time().await;
+                old.send(hx_ec::msg_del::<Faulty>(
+                    CONSISTENCY_SOURCE_ID,
+                    hx_ec::mk_meta(i, ts.as_u64()),
+                ))
+                .await
+                .map_err(|e| format!("del {i}: {e:?}"))?;
+            } else {
+                want.push(i);
+            }
+        }
+        let mut reached = 0u64;
+        for _ in 0..ticks {
+            let before = *store.calls.lock();
+            match mode {
+                0 => {},
+                1 => store.set_fail_all(true),
+                _ => store.set_plan(Plan::Partial(vec![true])),
+            }
+            // the purge task's period (1 h outside the crate's own tests)
+            tokio::time::advance(std::time::Duration::from_secs(3601)).await;
+            for _ in 0..50 {
+                tokio::task::yield_now().await;
+            }
+            store.set_fail_all(false);
+            store.set_plan(Plan::Ok);
+            // both keyspaces were asked to purge (the store saw one call each)
+            reached += (*store.calls.lock() >= before + 2) as u64;
+        }
+        // the rest of the in-flight work, through the mailbox obtained before the tick
+        let a = 0x100u64;
+        let ts = clock.get_time().await;
+        old.send(hx_ec::msg_set::<Faulty>(CONSISTENCY_SOURCE_ID, Document::new(a, ts, vec![1])))
+            .await
+            .map_err(|e| format!("set after tick: {e:?}"))?;
+        want.push(a);
+        let b = 0x101u64;
+        let fresh = group.get_or_create_keyspace(KEYSPACE).await;
+        let ts = clock.get_time().await;
+        fresh
+            .send(hx_ec::msg_set::<Faulty>(CONSISTENCY_SOURCE_ID, Document::new(b, ts, vec![2])))
+            .await
+            .map_err(|e| format!("set via fresh lookup: {e:?}"))?;
+        want.push(b);
+        let ts = clock.get_time().await;
+        other
+            .send(hx_ec::msg_set::<Faulty>(CONSISTENCY_SOURCE_ID, Document::new(7, ts, vec![3])))
+            .await
+            .map_err(|e| format!("set other: {e:?}"))?;
+
+        let later = group.get_or_create_keyspace(KEYSPACE).await;
+        let fin = live_ids(&later.send(Serialize).await.expect("serialize"));
+        let via_old = live_ids(&old.send(Serialize).await.expect("serialize"));
+        let last_updated = later.send(LastUpdated).await;
+        let info = group.get_keyspace_info().await;
+        let ts_ok = info.keyspace_timestamps.get(KEYSPACE) == Some(&last_updated);
+        let later_other = group.get_or_create_keyspace("other").await;
+        let fin_other = live_ids(&later_other.send(Serialize).await.expect("serialize"));
+        if fin != want || via_old != fin || !ts_ok || fin_other != vec![7] {
+            return Err(format!(
+                "acknowledged {} registered set {} set behind the earlier mailbox {} ts {} other {}",
+                show_set(&want),
+                show_set(&fin),
+                show_set(&via_old),
+                ts_ok as u8,
+                show_set(&fin_other)
+            ));
+        }
+        Ok(reached)
+    });
+    drop(rt);
+    out
+}
+
+fn do_purge(w: &mut CaseWriter, mode: usize, pre: usize, ticks: usize) {
+    let case = format!("purge {:x} {:x} {:x}", mode, pre, ticks);
+    match no_panic(|| run_purge(mode, pre, ticks)) {
+        None => {
+            w.case(&case, "panic");
+            w.fail("panic", &case, "");
+        },
+        Some(Ok(reached)) => {
+            w.case(&case, "all-present");
+            w.stats.add("purge_ticks_that_reached_the_store", reached);
+        },
+        Some(Err(why)) => {
+            w.case(&case, "violated");
+            w.fail("second-instance-or-lost-acked-mutation-across-a-purge-tick", &case, &why);
+        },
+    }
+    w.stats.hit("purge_tick_cases");
 }
 
 fn do_stress(w: &mut CaseWriter, k: usize, rounds: usize) {
@@ -488,6 +616,13 @@ fn main() {
                 if k <= 16 {
                     do_case(&mut w, k, &sched);
                 }
+            } else if let ["purge", m, p, n] = t.as_slice() {
+                let m = usize::from_str_radix(m, 16).unwrap();
+                let p = usize::from_str_radix(p, 16).unwrap();
+                let n = usize::from_str_radix(n, 16).unwrap();
+                if m <= 2 && p <= 64 && n <= 8 {
+                    do_purge(&mut w, m, p, n);
+                }
             } else if let ["stress", k, rounds] = t.as_slice() {
                 let k = usize::from_str_radix(k, 16).unwrap();
                 let rounds = usize::from_str_radix(rounds, 16).unwrap();
@@ -545,7 +680,16 @@ fn main() {
         do_case(&mut w, k, &s);
     }
 
-    // 3. oracle-only: the tokio multi-thread scheduler picks the interleaving
+    // 3. oracle-only: the background purge task between two uses of a keyspace
+    for mode in 0..3usize {
+        for pre in [0usize, 1, 2, 5] {
+            for ticks in [1usize, 2] {
+                do_purge(&mut w, mode, pre, ticks);
+            }
+        }
+    }
+
+    // 4. oracle-only: the tokio multi-thread scheduler picks the interleaving
     let rounds = if args.thorough() { 2_000 } else { 250 };
     for k in [2usize, 4, 8] {
         do_stress(&mut w, k, rounds);
